@@ -187,5 +187,250 @@ theorem coalesce_next_repr (g : Seg) (pre post : List Span) (s c nc : Nat) (u : 
             · intro h; rw [hq _ (by omega)]; exact o4 h
             · intro hu k hk1 hk2; rw [hq _ (by omega)]; exact o5 hu k hk1 hk2
 
-end SegM
+/-- case: only the previous span is free -/
+theorem coalesce_prev (g : Seg) (idx : Nat) (hn : coNext g idx = false) (hp : coPrev g idx = true) :
+    coalesce g idx =
+      (spanFree (queueDelete (set g idx { get g idx with count := 0, off := idx - sliceFirst g (idx - 1) }) (sliceFirst g (idx - 1)))
+        (sliceFirst g (idx - 1)) ((get g idx).count + (get g (sliceFirst g (idx - 1))).count), sliceFirst g (idx - 1)) := by
+  unfold coNext at hn; unfold coPrev at hp
+  simp only [decide_eq_false_iff_not] at hn
+  simp only [decide_eq_true_eq] at hp
+  unfold coalesce
+  simp only [hn, if_false, hp.1, hp.2, if_true]
 
+/-- Repr is preserved when a used span with a free predecessor is freed: the two merge into one free span starting at the predecessor -/
+theorem coalesce_prev_repr (g : Seg) (pre post : List Span) (ps pc c : Nat) (u : Bool)
+    (hr : Repr g (pre ++ (ps, pc, false) :: (ps + pc, c, u) :: post))
+    (hn : coNext g (ps + pc) = false) (hp : coPrev g (ps + pc) = true) :
+    Repr (coalesce g (ps + pc)).1 (pre ++ (ps, pc + c, false) :: post) := by
+  obtain ⟨hsz, hch, hok⟩ := hr
+  have hx := hok (ps, pc, false) (by simp)
+  have hy := hok (ps + pc, c, u) (by simp)
+  have hb := hch.bounds
+  have hxb := hb.2 (ps, pc, false) (by simp)
+  have hyb := hb.2 (ps + pc, c, u) (by simp)
+  simp only [] at hxb hyb
+  have hcnt : (get g (ps + pc)).count = c := hy.1
+  have hpcnt : (get g ps).count = pc := hx.1
+  -- mi_slice_first(slice - 1) finds the start of the previous span
+  have hsf : sliceFirst g (ps + pc - 1) = ps := by
+    unfold sliceFirst
+    by_cases h1 : pc > 1
+    · have := (hx.2.2.2.1 h1).1
+      simp only [] at this
+      rw [this]; omega
+    · have hpc1 : pc = 1 := by omega
+      subst hpc1
+      have : (get g ps).off = 0 := hx.2.1
+      have e : ps + 1 - 1 = ps := by omega
+      rw [e, this]; omega
+  rw [coalesce_prev g (ps + pc) hn hp, hsf, hcnt, hpcnt]
+  simp only []
+  have hidx : ps + pc < g.slices.size := by omega
+  have hps : ps < g.slices.size := by omega
+  -- the two intermediate writes touch only entries ps + pc and ps, both inside the merged span
+  have hq : ∀ j, j ≠ ps + pc → j ≠ ps →
+      get (queueDelete (set g (ps + pc) { get g (ps + pc) with count := 0, off := ps + pc - ps }) ps) j = get g j := by
+    intro j h1 h2
+    rw [queueDelete_get _ _ _ (by simp; exact hps), if_neg (by omega), get_set _ _ _ _ hidx, if_neg (by omega)]
+  have hsz1 : (queueDelete (set g (ps + pc) { get g (ps + pc) with count := 0, off := ps + pc - ps }) ps).slices.size
+      = (queueDelete (set g (ps + pc) { get g (ps + pc) with count := 0, off := ps + pc - ps }) ps).entries + 1 := by simp [hsz]
+  have hfit : ps + (c + pc) ≤ (queueDelete (set g (ps + pc) { get g (ps + pc) with count := 0, off := ps + pc - ps }) ps).entries := by simp; omega
+  have hcomm : pc + c = c + pc := Nat.add_comm _ _
+  rw [hcomm]
+  refine ⟨?_, ?_, ?_⟩
+  · rw [spanFree_size, spanFree_entries]; exact hsz1
+  · rw [spanFree_entries]
+    have := hch.merge (u := false)
+    rw [hcomm] at this
+    simpa using this
+  · intro z hz
+    rcases List.mem_append.mp hz with hz | hz
+    · have hzm : z ∈ pre ++ (ps, pc, false) :: (ps + pc, c, u) :: post := List.mem_append.mpr (Or.inl hz)
+      have hzok := hok z hzm
+      have hzb := hb.2 z hzm
+      obtain ⟨hp1, _⟩ := hch.split_at
+      have hzpre := hp1.bounds.2 z hz
+      apply spanFree_frame _ _ _ (by omega) hfit hsz1 z hzb.2.2 (Or.inl (by simp only [] at hzpre; omega))
+      obtain ⟨zs, zc, zu⟩ := z
+      simp only [] at hzpre hzb
+      unfold SpanOk at hzok ⊢
+      simp only [] at hzok ⊢
+      obtain ⟨o1, o2, o3, o4, o5⟩ := hzok
+      refine ⟨by rw [hq _ (by omega) (by omega)]; exact o1, by rw [hq _ (by omega) (by omega)]; exact o2, by rw [hq _ (by omega) (by omega)]; exact o3, ?_, ?_⟩
+      · intro h; rw [hq _ (by omega) (by omega)]; exact o4 h
+      · intro hu k hk1 hk2; rw [hq _ (by omega) (by omega)]; exact o5 hu k hk1 hk2
+    · rcases List.mem_cons.mp hz with rfl | hz
+      · exact spanFree_ok _ _ _ (by omega) hfit hsz1
+      · have hzm : z ∈ pre ++ (ps, pc, false) :: (ps + pc, c, u) :: post := by simp [hz]
+        have hzok := hok z hzm
+        have hzb := hb.2 z hzm
+        obtain ⟨_, hp2⟩ := hch.split_at
+        cases hp2 with
+        | cons _ hp3 => cases hp3 with
+          | cons _ hp4 =>
+            have hzpost := hp4.bounds.2 z hz
+            apply spanFree_frame _ _ _ (by omega) hfit hsz1 z hzb.2.2 (Or.inr (by simp only [] at hzpost; omega))
+            obtain ⟨zs, zc, zu⟩ := z
+            simp only [] at hzpost hzb
+            unfold SpanOk at hzok ⊢
+            simp only [] at hzok ⊢
+            obtain ⟨o1, o2, o3, o4, o5⟩ := hzok
+            refine ⟨by rw [hq _ (by omega) (by omega)]; exact o1, by rw [hq _ (by omega) (by omega)]; exact o2, by rw [hq _ (by omega) (by omega)]; exact o3, ?_, ?_⟩
+            · intro h; rw [hq _ (by omega) (by omega)]; exact o4 h
+            · intro hu k hk1 hk2; rw [hq _ (by omega) (by omega)]; exact o5 hu k hk1 hk2
+
+/-- case: both neighbours are free -/
+theorem coalesce_both (g : Seg) (idx : Nat) (hn : coNext g idx = true) (hp : coPrev g idx = true)
+    (hsz : g.slices.size = g.entries + 1) (hcpos : 0 < (get g idx).count) :
+    coalesce g idx =
+      (spanFree (queueDelete (set (queueDelete g (idx + (get g idx).count)) idx
+            { get g idx with count := 0, off := idx - sliceFirst g (idx - 1) }) (sliceFirst g (idx - 1)))
+        (sliceFirst g (idx - 1)) ((get g idx).count + (get g (idx + (get g idx).count)).count + (get g (sliceFirst g (idx - 1))).count),
+       sliceFirst g (idx - 1)) := by
+  unfold coNext at hn; unfold coPrev at hp
+  simp only [decide_eq_true_eq] at hn hp
+  unfold coalesce
+  simp only [hn, and_self, if_true]
+  have hsz' : idx + (get g idx).count < g.slices.size := by omega
+  have h0 := hp.1
+  have hne : ¬ (idx + (get g idx).count = idx - 1) := by omega
+  have hl : get (queueDelete g (idx + (get g idx).count)) (idx - 1) = get g (idx - 1) := by
+    rw [queueDelete_get _ _ _ hsz', if_neg hne]
+  have hsf : sliceFirst (queueDelete g (idx + (get g idx).count)) (idx - 1) = sliceFirst g (idx - 1) := by
+    unfold sliceFirst; rw [hl]
+  have hne2 : ¬ (idx + (get g idx).count = sliceFirst g (idx - 1)) := by unfold sliceFirst; omega
+  have hb : get (queueDelete g (idx + (get g idx).count)) (sliceFirst g (idx - 1)) = get g (sliceFirst g (idx - 1)) := by
+    rw [queueDelete_get _ _ _ hsz', if_neg hne2]
+  have hne3 : ¬ (idx + (get g idx).count = idx) := by omega
+  have hi : get (queueDelete g (idx + (get g idx).count)) idx = get g idx := by
+    rw [queueDelete_get _ _ _ hsz', if_neg hne3]
+  simp only [h0, if_true, hsf, hb, hp.2, hi]
+
+/-- Repr is preserved when a used span between two free spans is freed: the three merge -/
+theorem coalesce_both_repr (g : Seg) (pre post : List Span) (ps pc c nc : Nat) (u : Bool)
+    (hr : Repr g (pre ++ (ps, pc, false) :: (ps + pc, c, u) :: (ps + pc + c, nc, false) :: post))
+    (hn : coNext g (ps + pc) = true) (hp : coPrev g (ps + pc) = true) :
+    Repr (coalesce g (ps + pc)).1 (pre ++ (ps, pc + c + nc, false) :: post) := by
+  obtain ⟨hsz, hch, hok⟩ := hr
+  have hx := hok (ps, pc, false) (by simp)
+  have hy := hok (ps + pc, c, u) (by simp)
+  have hz := hok (ps + pc + c, nc, false) (by simp)
+  have hb := hch.bounds
+  have hxb := hb.2 (ps, pc, false) (by simp)
+  have hyb := hb.2 (ps + pc, c, u) (by simp)
+  have hzb := hb.2 (ps + pc + c, nc, false) (by simp)
+  simp only [] at hxb hyb hzb
+  have hcnt : (get g (ps + pc)).count = c := hy.1
+  have hpcnt : (get g ps).count = pc := hx.1
+  have hncnt : (get g (ps + pc + c)).count = nc := hz.1
+  have hsf : sliceFirst g (ps + pc - 1) = ps := by
+    unfold sliceFirst
+    by_cases h1 : pc > 1
+    · have := (hx.2.2.2.1 h1).1
+      simp only [] at this
+      rw [this]; omega
+    · have hpc1 : pc = 1 := by omega
+      subst hpc1
+      have : (get g ps).off = 0 := hx.2.1
+      have e : ps + 1 - 1 = ps := by omega
+      rw [e, this]; omega
+  rw [coalesce_both g (ps + pc) hn hp hsz (by rw [hcnt]; omega), hsf, hcnt, hncnt, hpcnt]
+  simp only []
+  have hidx : ps + pc < g.slices.size := by omega
+  have hps : ps < g.slices.size := by omega
+  have hnx : ps + pc + c < g.slices.size := by omega
+  -- the three intermediate writes touch only entries ps + pc + c, ps + pc and ps, all inside the merged span
+  have hq : ∀ j, j ≠ ps + pc + c → j ≠ ps + pc → j ≠ ps →
+      get (queueDelete (set (queueDelete g (ps + pc + c)) (ps + pc) { get g (ps + pc) with count := 0, off := ps + pc - ps }) ps) j = get g j := by
+    intro j h1 h2 h3
+    rw [queueDelete_get _ _ _ (by simp; exact hps), if_neg (by omega), get_set _ _ _ _ (by simp; exact hidx), if_neg (by omega),
+      queueDelete_get _ _ _ hnx, if_neg (by omega)]
+  have hsz1 : (queueDelete (set (queueDelete g (ps + pc + c)) (ps + pc) { get g (ps + pc) with count := 0, off := ps + pc - ps }) ps).slices.size
+      = (queueDelete (set (queueDelete g (ps + pc + c)) (ps + pc) { get g (ps + pc) with count := 0, off := ps + pc - ps }) ps).entries + 1 := by simp [hsz]
+  have hfit : ps + (c + nc + pc) ≤ (queueDelete (set (queueDelete g (ps + pc + c)) (ps + pc) { get g (ps + pc) with count := 0, off := ps + pc - ps }) ps).entries := by simp; omega
+  have hcomm : pc + c + nc = c + nc + pc := by omega
+  rw [hcomm]
+  refine ⟨?_, ?_, ?_⟩
+  · rw [spanFree_size, spanFree_entries]; exact hsz1
+  · rw [spanFree_entries]
+    -- merge the last two, then the first two
+    have m1 : Chain 0 ((pre ++ [(ps, pc, false)]) ++ (ps + pc, c + nc, false) :: post) g.entries := by
+      have h' : Chain 0 ((pre ++ [(ps, pc, false)]) ++ (ps + pc, c, u) :: (ps + pc + c, nc, false) :: post) g.entries := by simpa using hch
+      exact h'.merge
+    have m1' : Chain 0 (pre ++ (ps, pc, false) :: (ps + pc, c + nc, false) :: post) g.entries := by simpa using m1
+    have m2 := m1'.merge (u := false)
+    have e : pc + (c + nc) = c + nc + pc := by omega
+    rw [e] at m2
+    simpa using m2
+  · intro z hz
+    rcases List.mem_append.mp hz with hz | hz
+    · have hzm : z ∈ pre ++ (ps, pc, false) :: (ps + pc, c, u) :: (ps + pc + c, nc, false) :: post := List.mem_append.mpr (Or.inl hz)
+      have hzok := hok z hzm
+      have hzb' := hb.2 z hzm
+      obtain ⟨hp1, _⟩ := hch.split_at
+      have hzpre := hp1.bounds.2 z hz
+      apply spanFree_frame _ _ _ (by omega) hfit hsz1 z hzb'.2.2 (Or.inl (by simp only [] at hzpre; omega))
+      obtain ⟨zs, zc, zu⟩ := z
+      simp only [] at hzpre hzb'
+      unfold SpanOk at hzok ⊢
+      simp only [] at hzok ⊢
+      obtain ⟨o1, o2, o3, o4, o5⟩ := hzok
+      refine ⟨by rw [hq _ (by omega) (by omega) (by omega)]; exact o1, by rw [hq _ (by omega) (by omega) (by omega)]; exact o2, by rw [hq _ (by omega) (by omega) (by omega)]; exact o3, ?_, ?_⟩
+      · intro h; rw [hq _ (by omega) (by omega) (by omega)]; exact o4 h
+      · intro hu k hk1 hk2; rw [hq _ (by omega) (by omega) (by omega)]; exact o5 hu k hk1 hk2
+    · rcases List.mem_cons.mp hz with rfl | hz
+      · exact spanFree_ok _ _ _ (by omega) hfit hsz1
+      · have hzm : z ∈ pre ++ (ps, pc, false) :: (ps + pc, c, u) :: (ps + pc + c, nc, false) :: post := by simp [hz]
+        have hzok := hok z hzm
+        have hzb' := hb.2 z hzm
+        obtain ⟨_, hp2⟩ := hch.split_at
+        cases hp2 with
+        | cons _ hp3 => cases hp3 with
+          | cons _ hp4 => cases hp4 with
+            | cons _ hp5 =>
+              have hzpost := hp5.bounds.2 z hz
+              apply spanFree_frame _ _ _ (by omega) hfit hsz1 z hzb'.2.2 (Or.inr (by simp only [] at hzpost; omega))
+              obtain ⟨zs, zc, zu⟩ := z
+              simp only [] at hzpost hzb'
+              unfold SpanOk at hzok ⊢
+              simp only [] at hzok ⊢
+              obtain ⟨o1, o2, o3, o4, o5⟩ := hzok
+              refine ⟨by rw [hq _ (by omega) (by omega) (by omega)]; exact o1, by rw [hq _ (by omega) (by omega) (by omega)]; exact o2, by rw [hq _ (by omega) (by omega) (by omega)]; exact o3, ?_, ?_⟩
+              · intro h; rw [hq _ (by omega) (by omega) (by omega)]; exact o4 h
+              · intro hu k hk1 hk2; rw [hq _ (by omega) (by omega) (by omega)]; exact o5 hu k hk1 hk2
+
+/-- Repr is preserved when a used span without free neighbours is freed: only its flag changes -/
+theorem coalesce_none_repr (g : Seg) (pre post : List Span) (s c : Nat) (u : Bool)
+    (hr : Repr g (pre ++ (s, c, u) :: post)) (hn : coNext g s = false) (hp : coPrev g s = false) :
+    Repr (coalesce g s).1 (pre ++ (s, c, false) :: post) := by
+  obtain ⟨hsz, hch, hok⟩ := hr
+  have hx := hok (s, c, u) (by simp)
+  have hb := hch.bounds
+  have hxb := hb.2 (s, c, u) (by simp)
+  simp only [] at hxb
+  have hcnt : (get g s).count = c := hx.1
+  rw [coalesce_none g s hn hp, hcnt]
+  simp only []
+  have hfit : s + c ≤ g.entries := by omega
+  refine ⟨?_, ?_, ?_⟩
+  · rw [spanFree_size, spanFree_entries]; exact hsz
+  · rw [spanFree_entries]; exact hch.reflag
+  · intro z hz
+    rcases List.mem_append.mp hz with hz | hz
+    · have hzm : z ∈ pre ++ (s, c, u) :: post := List.mem_append.mpr (Or.inl hz)
+      have hzb := hb.2 z hzm
+      obtain ⟨hp1, _⟩ := hch.split_at
+      have hzpre := hp1.bounds.2 z hz
+      exact spanFree_frame _ _ _ (by omega) hfit hsz z hzb.2.2 (Or.inl (by simp only [] at hzpre; omega)) (hok z hzm)
+    · rcases List.mem_cons.mp hz with rfl | hz
+      · exact spanFree_ok _ _ _ (by omega) hfit hsz
+      · have hzm : z ∈ pre ++ (s, c, u) :: post := by simp [hz]
+        have hzb := hb.2 z hzm
+        obtain ⟨_, hp2⟩ := hch.split_at
+        cases hp2 with
+        | cons _ hp3 =>
+          have hzpost := hp3.bounds.2 z hz
+          exact spanFree_frame _ _ _ (by omega) hfit hsz z hzb.2.2 (Or.inr (by simp only [] at hzpost; omega)) (hok z hzm)
+
+end SegM
